@@ -22,6 +22,12 @@ def check(run):
         xc.replay_validate(run, groups, extra_driver_args=v)
         if run.violations:
             break
+    # engine level: pushed blocks with a wrong award must be refused by Miner.ProcBlock (IsValidTx / CalcAward)
+    est = {}
+    if not run.violations:
+        ebehs, est = xc.engine_phase(run, 35 if quick else 400)
+        badaward = sum(1 for b in ebehs for o in b if o.get("kind") == "badaward")
+        run.cov["engine_badaward_pushes"] = badaward
     behs = [b for _, bs, _ in groups for b in bs]
     st = xc.stats(behs)
     ops = [o for b in behs for o in b]
@@ -33,4 +39,5 @@ def check(run):
     run.assumptions += ["big-integer arithmetic of math/big is trusted; the specification is scale invariant, amounts in the "
                         "spec are small integers", "non-canonical input encodings are only required to be conserved-or-refused"]
     run.finish(require={"fee_payers_admitted": (fee, 5), "zero_value_outputs": (zero, 3), "mines": (st["mine:ok"], 5),
-                        "walks_ok": (st["walk:ok"], 10), "undone_blocks_or_plays": (st["play:ok"] + st["walk:ok"], 20)})
+                        "walks_ok": (st["walk:ok"], 10), "undone_blocks_or_plays": (st["play:ok"] + st["walk:ok"], 20),
+                        "engine_pushes": (run.cov.get("real_pushes", 0), 100), "engine_badaward_pushes": (run.cov.get("engine_badaward_pushes", 0), 3)})
